@@ -45,7 +45,7 @@ def judge(st: Stats, hist: History, specs: List[Dict[str, Any]], schedule: Seque
     expected_reject = ML.overspent(specs)
     if expected_reject != balance_track(hist)[0]:
         raise AssertionError(f"harness: pruning model and oracle disagree on {H.hist_str(hist)}")
-    base = {"history": H.hist_str(hist), "specs": specs, "schedule": list(schedule), "deviation": label}
+    base = {"history": H.hist_str(hist), "hist": hist, "specs": specs, "schedule": list(schedule), "deviation": label}
     if not out.ok:
         if not isinstance(out.error, C.RP2Error):
             st.violation(dict(base, signature=f"C02 internal error / {type(out.error).__name__}",
@@ -56,7 +56,7 @@ def judge(st: Stats, hist: History, specs: List[Dict[str, Any]], schedule: Seque
             st.inc("traces_validated_against_impl")
             st.inc("distinct_nontrivial")
             if st.get("rejected_as_expected") <= 1:
-                st.sample({"history": H.hist_str(hist), "schedule": sched_str(schedule), "outcome": f"rejected: {out.error}"}, cap=8)
+                st.sample({"history": H.hist_str(hist), "hist": hist, "schedule": sched_str(schedule), "outcome": f"rejected: {out.error}"}, cap=8)
             return
         st.violation(dict(base, signature=f"C02 valid history rejected / {type(out.error).__name__}",
                           what=f"valid history rejected under {sched_str(schedule)}: {H.hist_str(hist)} :: {out.error}"))
@@ -88,7 +88,7 @@ def judge(st: Stats, hist: History, specs: List[Dict[str, Any]], schedule: Seque
                           what=f"{sched_str(schedule)}: {H.hist_str(hist)} :: {problems[0]}",
                           fractions=[(e, l, str(a)) for e, l, a in fr], problems=problems))
     elif sold_out and len(per_lot) >= 2:
-        st.sample({"history": H.hist_str(hist), "schedule": sched_str(schedule), "deviation": label,
+        st.sample({"history": H.hist_str(hist), "hist": hist, "schedule": sched_str(schedule), "deviation": label,
                    "fractions(event row, lot row, amount)": [(e, l, str(a)) for e, l, a in fr]}, cap=2)
 
 
@@ -149,3 +149,9 @@ def main(tier: str, budget_s: Optional[float] = None) -> int:
     for i in info:
         print("  ", i)
     return 1 if new else 0
+
+
+def replay(path: str) -> int:
+    from rp2verif.lotrun import replay_compute
+
+    return replay_compute(__name__, path)
